@@ -307,6 +307,18 @@ func Migrate() {
 	})
 	if crashed {
 		vrt.Reach("crashed")
+		if vrt.Choose("retry", 2) == 1 {
+			// the interrupted migration is run again (same options) before the log is used
+			ro := opts
+			ro.Recover = true
+			lg, err := klevdb.Open(dir, ro)
+			vrt.Assert(err == nil, "re-running the interrupted migration succeeds")
+			if err != nil {
+				return
+			}
+			vrt.Assert(lg.Close() == nil, "Close after the re-run migration")
+			vrt.Reach("migration-retried")
+		}
 	} else {
 		tapBound()
 	}
